@@ -19,6 +19,11 @@ pub enum FeIn {
     Miller(u8, u8),
     /// product of an element and a Miller-loop output
     Product(ExtR, u8, u8),
+    /// an element with multiplicative structure, computed by the model from e (1 when e = 0):
+    /// kind 0: e itself; 1: e^((q^6-1)(q^2+1)) (cyclotomic subgroup: unitary, what the hard part is fed);
+    /// 2: e^(3(q^12-1)/r) (an element of GT); then op 0: as is, 1: inverse, 2: conjugate, 3..: Frobenius^(op-2),
+    /// and finally multiplied by the subfield element `c` when `times` is set (fe must not change)
+    Derived { e: ExtR, kind: u8, op: u8, times: Option<ExtR> },
 }
 
 fn fein_strategy() -> BoxedStrategy<FeIn> {
@@ -26,6 +31,7 @@ fn fein_strategy() -> BoxedStrategy<FeIn> {
         8 => ext_strategy(12).prop_map(FeIn::Elem),
         3 => (0u8..POOL_SUB as u8, 0u8..POOL_SUB as u8).prop_map(|(i, j)| FeIn::Miller(i, j)),
         2 => (ext_strategy(12), 0u8..POOL_SUB as u8, 0u8..POOL_SUB as u8).prop_map(|(e, i, j)| FeIn::Product(e, i, j)),
+        5 => (ext_strategy(12), 0u8..3, 0u8..8, proptest::option::of(ext_strategy(6))).prop_map(|(e, kind, op, times)| FeIn::Derived { e, kind, op, times }),
     ]
     .boxed()
 }
@@ -42,6 +48,33 @@ fn build(f: &FeIn) -> Result<Fq12, String> {
         FeIn::Elem(e) => Fq12::from_tower(&e.tower(12)),
         FeIn::Miller(i, j) => miller_out(*i, *j)?,
         FeIn::Product(e, i, j) => Fq12::from_tower(&e.tower(12)).mul(&miller_out(*i, *j)?),
+        FeIn::Derived { e, kind, op, times } => {
+            let mut v = Fq12::from_tower(&e.tower(12));
+            if v.is_zero() {
+                v = Fq12::one();
+            }
+            let v = match kind % 3 {
+                0 => v,
+                1 => {
+                    let t = v.conj().mul(&v.inv().unwrap());
+                    t.frobenius(2).mul(&t)
+                }
+                _ => v.pow(&C().final_exp),
+            };
+            let v = match op % 8 {
+                0 => v,
+                1 => v.inv().unwrap(),
+                2 => v.conj(),
+                k => v.frobenius(k as usize - 2),
+            };
+            match times {
+                Some(c) => {
+                    let cm = Fq12::from_tower(&c.tower(6));
+                    if cm.is_zero() { v } else { v.mul(&cm) }
+                }
+                None => v,
+            }
+        }
     })
 }
 
@@ -56,6 +89,12 @@ fn class_of(f: &FeIn, v: &Fq12) -> String {
         }
         FeIn::Miller(_, _) => "miller-output".into(),
         FeIn::Product(_, _, _) => "element-times-miller-output".into(),
+        FeIn::Derived { kind, op, times, .. } => format!(
+            "derived:{}:{}{}",
+            ["element", "cyclotomic-subgroup-element", "GT-element"][*kind as usize % 3],
+            match op % 8 { 0 => "as-is", 1 => "inverse", 2 => "conjugate", _ => "frobenius-image" },
+            if times.is_some() { ":times-subfield-element" } else { "" }
+        ),
     }
 }
 
@@ -147,7 +186,7 @@ fn check_relations(c: &RelCase, info: &mut Info) -> Result<(), String> {
 pub fn def() -> PropDef {
     PropDef {
         id: "C12",
-        rule: "elements of Fq12: zero, one, powers of w, dense / masked coefficient vectors (elements of Fq, Fq2, Fq6, Fq4-type, pure w-odd part), Miller-loop outputs on pool points, products of these. Oracle: generic square-and-multiply power 3(q^12-1)/r in the flat model ring (exact equality of all 12 coefficients), failure exactly for 0; relations fe(fg) = fe(f)fe(g), fe(f)^r = 1 and proper subfield => 1 evaluated in the model. Non-trivial = f non-zero and outside Fq6 and Fq4; distinct = distinct cases",
+        rule: "elements of Fq12: zero, one, powers of w, dense / masked coefficient vectors (elements of Fq, Fq2, Fq6, Fq4-type, pure w-odd part), Miller-loop outputs on pool points, products of these, and elements with multiplicative structure computed by the model (cyclotomic-subgroup / unitary elements, GT elements, their inverses, conjugates, Frobenius images, each optionally times an Fq6 element). Oracle: generic square-and-multiply power 3(q^12-1)/r in the flat model ring (exact equality of all 12 coefficients), failure exactly for 0; relations fe(fg) = fe(f)fe(g), fe(f)^r = 1 and proper subfield => 1 evaluated in the model. Non-trivial = f non-zero and outside Fq6 and Fq4; distinct = distinct cases",
         needs_pairing: true,
         subs: vec![
             Box::new(Sub { name: "model-power", rule: "final_exponentiation(f) == f^(3(q^12-1)/r) by the model; None iff f = 0", quick: 400, thorough: 5000, strategy: || boxed(fein_strategy().prop_map(|f| PowCase { f })), check: check_power }),
